@@ -1,6 +1,9 @@
 package ch
 
-import "context"
+import (
+	"context"
+	"sync"
+)
 
 type (
 	ctxQueryKey  struct{}
@@ -12,16 +15,27 @@ type (
 		Rows            int
 		Bytes           int
 	}
+	// sharedQueryMetrics is the per-query value stored in context.
+	//
+	// The sending and the receiving goroutine of a query both report through
+	// it, so the counters are guarded by mu.
+	sharedQueryMetrics struct {
+		mu sync.Mutex
+		queryMetrics
+	}
 )
 
 func (c *Client) metricsInc(ctx context.Context, delta queryMetrics) {
 	if !c.otel {
 		return
 	}
-	v, ok := ctx.Value(ctxQueryKey{}).(*queryMetrics)
+	v, ok := ctx.Value(ctxQueryKey{}).(*sharedQueryMetrics)
 	if !ok {
 		return
 	}
+
+	v.mu.Lock()
+	defer v.mu.Unlock()
 
 	v.Bytes += delta.Bytes
 	v.Rows += delta.Rows
